@@ -87,6 +87,8 @@ pub enum Server {
     StallBeforeHeaders,
     StallMidBody { body: Body, k: u64 },
     Refused,
+    /// a 200 without Content-Length or chunking whose body stops after k bytes with an orderly close
+    CloseDelimitedCut { body: Body, k: u64 },
 }
 
 impl Server {
@@ -104,6 +106,7 @@ impl Server {
             Server::StallBeforeHeaders => "stall_before_headers".into(),
             Server::StallMidBody { .. } => "stall_mid_body".into(),
             Server::Refused => "refused".into(),
+            Server::CloseDelimitedCut { .. } => "200_close_delimited_cut".into(),
         }
     }
 }
@@ -113,6 +116,9 @@ impl Server {
 pub enum Entry {
     Expr,
     Fetch,
+    /// the interactive prompt with `[limits] enabled = true`: queries are answered by a sandboxed
+    /// child process, which loads the configuration (and refreshes the cache) once more
+    SandboxedRepl,
 }
 
 #[derive(Serialize, Deserialize, Clone, Debug, PartialEq, Eq, Hash)]
@@ -131,6 +137,13 @@ pub struct Scenario {
     pub server: Server,
     pub entry: Entry,
     pub kill: Kill,
+    /// configure `timeout = "500us"` instead of 500 ms
+    #[serde(default, skip_serializing_if = "is_false")]
+    pub tiny_timeout: bool,
+}
+
+fn is_false(b: &bool) -> bool {
+    !*b
 }
 
 // ---------------------------------------------------------------------------
@@ -337,10 +350,17 @@ impl Home {
         self.cache_dir().join("currency.json")
     }
     fn write_config(&self, port: u16) -> Result<(), String> {
-        let text = format!(
-            "[currency]\nendpoint = \"http://127.0.0.1:{}/data/currency.json\"\ntimeout = \"500ms\"\ncache_duration = \"1h\"\n",
-            port
+        self.write_config_with(port, false, false)
+    }
+    fn write_config_with(&self, port: u16, limits: bool, tiny_timeout: bool) -> Result<(), String> {
+        let mut text = format!(
+            "[currency]\nendpoint = \"http://127.0.0.1:{}/data/currency.json\"\ntimeout = \"{}\"\ncache_duration = \"1h\"\n",
+            port,
+            if tiny_timeout { "500us" } else { "500ms" }
         );
+        if limits {
+            text.push_str("[limits]\nenabled = true\n");
+        }
         std::fs::write(self.dir.join("cfg/rink/config.toml"), text).map_err(|e| format!("write config: {}", e))
     }
     fn command(&self, program: &Path) -> Command {
@@ -377,8 +397,11 @@ impl Home {
         }
     }
     fn run(&self, c: Command, tag: &str) -> Result<RunOut, String> {
+        self.run_within(c, tag, WATCHDOG)
+    }
+    fn run_within(&self, c: Command, tag: &str, limit: Duration) -> Result<RunOut, String> {
         let (mut ch, o, e) = self.spawn(c, tag)?;
-        let st = wait_child(&mut ch, WATCHDOG)?;
+        let st = wait_child(&mut ch, limit)?;
         Ok(self.collect(st, &o, &e))
     }
 }
@@ -562,15 +585,25 @@ impl Env {
                 json!({"status":200,"body_file":bp(*body),"mode":"stall_mid_body","k":k,"log":log})
             }
             Server::Refused => return None,
+            Server::CloseDelimitedCut { body, k } => {
+                json!({"status":200,"body_file":bp(*body),"mode":"close_delimited_cut","k":k,"log":log})
+            }
         })
     }
 
     fn start_server(&self, sv: &Server, dir: &Path) -> Result<Option<ServerProc>, String> {
+        self.start_server_stalling(sv, dir, None)
+    }
+    /// `stall_cap_ms`: how long a stalling script waits for the client to go away (default 15 s)
+    fn start_server_stalling(&self, sv: &Server, dir: &Path, stall_cap_ms: Option<u64>) -> Result<Option<ServerProc>, String> {
         let log = dir.join("server.log");
-        let script = match self.script(sv, &log) {
+        let mut script = match self.script(sv, &log) {
             Some(s) => s,
             None => return Ok(None),
         };
+        if let Some(ms) = stall_cap_ms {
+            script["stall_cap_ms"] = json!(ms);
+        }
         let sp = dir.join("script.json");
         std::fs::write(&sp, script.to_string()).map_err(|e| e.to_string())?;
         let mut child = Command::new(&self.setup.httpd)
@@ -602,6 +635,7 @@ fn rink_args(entry: Entry) -> Vec<&'static str> {
     match entry {
         Entry::Expr => vec![EXPR_PLAIN, EXPR_MARKER],
         Entry::Fetch => vec!["--fetch-currency"],
+        Entry::SandboxedRepl => vec![],
     }
 }
 
@@ -813,6 +847,17 @@ fn common_prefix(a: &[u8], b: &[u8]) -> usize {
 }
 
 fn marker_line(stdout: &str) -> Option<String> {
+    if !stdout.lines().any(|l| l.trim() == format!("> {}", EXPR_MARKER)) {
+        // the interactive prompt does not echo its input: the answers follow each other, and the
+        // marker's answer is the first non-empty line after the plain answer
+        let mut it = stdout.lines().map(|l| l.trim().trim_start_matches("> ").trim().to_string());
+        while let Some(l) = it.next() {
+            if l.contains(PLAIN_ANSWER) {
+                return it.find(|l| !l.is_empty());
+            }
+        }
+        return None;
+    }
     let mut it = stdout.lines();
     while let Some(l) = it.next() {
         if l.trim() == format!("> {}", EXPR_MARKER) {
@@ -936,10 +981,12 @@ fn execute_in(env: &Env, sc: &Scenario, st: &mut Stats, dir: &Path) -> Result<()
     }
 
     // --- server
-    let server = env.start_server(&sc.server, dir).or_else(inf("server"))?;
+    // a client whose configured timeout is half a millisecond must give up by itself: the server
+    // outwaits both runs of the watchdog
+    let server = env.start_server_stalling(&sc.server, dir, if sc.tiny_timeout { Some(70_000) } else { None }).or_else(inf("server"))?;
     let refused_port = env.refused.as_ref().map(|r| r.port).unwrap_or(1);
     let port = server.as_ref().map(|s| s.port).unwrap_or(refused_port);
-    home.write_config(port).or_else(inf("scratch"))?;
+    home.write_config_with(port, sc.entry == Entry::SandboxedRepl, sc.tiny_timeout).or_else(inf("scratch"))?;
 
     // --- the run under test
     let args = rink_args(sc.entry);
@@ -947,9 +994,43 @@ fn execute_in(env: &Env, sc: &Scenario, st: &mut Stats, dir: &Path) -> Result<()
     let mut kill_label = String::new();
     let out: Option<RunOut> = match &sc.kill {
         Kill::None => {
-            let mut c = home.command(&su.rink);
-            c.args(&args);
-            Some(home.run(c, "run").or_else(inf("watchdog"))?)
+            let mk = || -> Result<Command, String> {
+                let mut c = home.command(&su.rink);
+                c.args(&args);
+                if sc.entry == Entry::SandboxedRepl {
+                    let p = dir.join("stdin.txt");
+                    std::fs::write(&p, format!("{}\n{}\n", EXPR_PLAIN, EXPR_MARKER)).map_err(|e| e.to_string())?;
+                    c.stdin(std::fs::File::open(&p).map_err(|e| e.to_string())?);
+                }
+                Ok(c)
+            };
+            // the corner scenarios are about rink not coming back at all: its own limit is half a
+            // second (or half a millisecond), so 25 s is ample even on a loaded machine
+            let limit = if sc.entry == Entry::SandboxedRepl || sc.tiny_timeout { Duration::from_secs(25) } else { WATCHDOG };
+            match home.run_within(mk().or_else(inf("scratch"))?, "run", limit) {
+                Ok(o) => Some(o),
+                Err(e) if e == "watchdog" && (sc.entry == Entry::SandboxedRepl || sc.tiny_timeout) => {
+                    // rink neither finished nor gave up within 40 s (its own limit is half a second):
+                    // once more, then it is the property's "Rink still starts ... and answers"
+                    match home.run_within(mk().or_else(inf("scratch"))?, "run2", limit) {
+                        Err(e2) if e2 == "watchdog" => {
+                            return Err(Fail::Violation(
+                                "rink-hangs-on-refresh".into(),
+                                format!(
+                                    "rink did not finish within {} s, twice (server {}, entry {:?}, timeout {}): it neither answered nor gave up on the refresh",
+                                    limit.as_secs(),
+                                    sc.server.name(),
+                                    sc.entry,
+                                    if sc.tiny_timeout { "500us" } else { "500ms" }
+                                ),
+                            ))
+                        }
+                        Ok(o) => Some(o),
+                        Err(e2) => return Err(Fail::Infra("watchdog".into(), e2)),
+                    }
+                }
+                Err(e) => return Err(Fail::Infra("watchdog".into(), e)),
+            }
         }
         Kill::Syscall { name, when } => {
             let set = match &su.strace {
@@ -1044,6 +1125,7 @@ fn execute_in(env: &Env, sc: &Scenario, st: &mut Stats, dir: &Path) -> Result<()
         | Server::ChunkedComplete { body }
         | Server::CutAfter { body, .. }
         | Server::ChunkedCutAfter { body, .. }
+        | Server::CloseDelimitedCut { body, .. }
         | Server::StallMidBody { body, .. } => Some(d.new_of(*body)),
         Server::Status { body: ErrBody::NewSmall, .. } => Some(&d.new_small),
         _ => None,
@@ -1154,7 +1236,7 @@ fn execute_in(env: &Env, sc: &Scenario, st: &mut Stats, dir: &Path) -> Result<()
             }
         }
         match sc.entry {
-            Entry::Expr => {
+            Entry::Expr | Entry::SandboxedRepl => {
                 // R4: rink starts, answers, and shows exactly the data that is in the cache now
                 judge_answers(o, kind, "run").map_err(|(s, m)| Fail::Violation(s, m))?;
             }
@@ -1280,7 +1362,7 @@ fn grid(tier: Tier, ls: u64, lp: u64) -> Vec<Scenario> {
     let mut out = vec![];
     for sv in fixed_servers(ls, lp) {
         for (p, e) in &cs {
-            out.push(Scenario { prior: *p, server: sv.clone(), entry: *e, kill: Kill::None });
+            out.push(Scenario { prior: *p, server: sv.clone(), entry: *e, kill: Kill::None, tiny_timeout: false });
         }
     }
     match tier {
@@ -1289,7 +1371,7 @@ fn grid(tier: Tier, ls: u64, lp: u64) -> Vec<Scenario> {
                 // two (prior, entry) combinations per cut point, rotating; FIN and RST
                 for (j, rst) in [(i % cs.len(), i % 2 == 0), ((i * 3 + 5) % cs.len(), i % 2 != 0)] {
                     let (p, e) = cs[j];
-                    out.push(Scenario { prior: p, server: Server::CutAfter { body: b, k, rst }, entry: e, kill: Kill::None });
+                    out.push(Scenario { prior: p, server: Server::CutAfter { body: b, k, rst }, entry: e, kill: Kill::None, tiny_timeout: false });
                 }
             }
         }
@@ -1297,19 +1379,19 @@ fn grid(tier: Tier, ls: u64, lp: u64) -> Vec<Scenario> {
             for (b, k) in thorough_cuts(ls, lp) {
                 for (p, e) in &cs {
                     for rst in [false, true] {
-                        out.push(Scenario { prior: *p, server: Server::CutAfter { body: b, k, rst }, entry: *e, kill: Kill::None });
+                        out.push(Scenario { prior: *p, server: Server::CutAfter { body: b, k, rst }, entry: *e, kill: Kill::None, tiny_timeout: false });
                     }
                 }
             }
             // every k of the small body, previous cache stale
             for k in 0..ls {
                 let e = if k % 2 == 0 { Entry::Fetch } else { Entry::Expr };
-                out.push(Scenario { prior: Prior::Stale, server: Server::CutAfter { body: Body::Small, k, rst: k % 4 >= 2 }, entry: e, kill: Kill::None });
+                out.push(Scenario { prior: Prior::Stale, server: Server::CutAfter { body: Body::Small, k, rst: k % 4 >= 2 }, entry: e, kill: Kill::None, tiny_timeout: false });
             }
             for k in 0..170u64 {
                 for (p, e) in &cs {
                     if *p == Prior::Stale || k % 8 == 1 {
-                        out.push(Scenario { prior: *p, server: Server::HeaderCut { k, rst: k % 2 == 1 }, entry: *e, kill: Kill::None });
+                        out.push(Scenario { prior: *p, server: Server::HeaderCut { k, rst: k % 2 == 1 }, entry: *e, kill: Kill::None, tiny_timeout: false });
                     }
                 }
             }
@@ -1317,14 +1399,14 @@ fn grid(tier: Tier, ls: u64, lp: u64) -> Vec<Scenario> {
             while m < lp {
                 for k in [m - 1, m, m + 1] {
                     for (p, e) in &cs {
-                        out.push(Scenario { prior: *p, server: Server::ChunkedCutAfter { body: Body::Padded, k }, entry: *e, kill: Kill::None });
+                        out.push(Scenario { prior: *p, server: Server::ChunkedCutAfter { body: Body::Padded, k }, entry: *e, kill: Kill::None, tiny_timeout: false });
                     }
                 }
                 m += 4096 * 4;
             }
             for i in 0..20u64 {
                 for (p, e) in &cs {
-                    out.push(Scenario { prior: *p, server: Server::StallMidBody { body: Body::Padded, k: i * lp / 20 }, entry: *e, kill: Kill::None });
+                    out.push(Scenario { prior: *p, server: Server::StallMidBody { body: Body::Padded, k: i * lp / 20 }, entry: *e, kill: Kill::None, tiny_timeout: false });
                 }
             }
         }
@@ -1417,7 +1499,8 @@ fn kill_scenarios(tier: Tier, table: &KillTable) -> Vec<Scenario> {
                 server: Server::Complete { body: *b },
                 entry: *e,
                 kill: Kill::Syscall { name: kp.name.clone(), when: kp.when },
-            };
+            tiny_timeout: false,
+        };
             if kp.essential && *p == Prior::Stale {
                 ess.push(sc);
             } else {
@@ -1451,7 +1534,7 @@ fn paced_scenarios(tier: Tier, ls: u64, lp: u64, all_kills: bool) -> Vec<Scenari
         } else {
             Server::StallMidBody { body: Body::Padded, k: (i * 40_009) % lp }
         };
-        out.push(Scenario { prior: p, server, entry: e, kill: Kill::ServerPaced });
+        out.push(Scenario { prior: p, server, entry: e, kill: Kill::ServerPaced, tiny_timeout: false });
     }
     out
 }
@@ -1479,15 +1562,16 @@ fn server_strategy(ls: u64, lp: u64) -> BoxedStrategy<Server> {
         1 => Just(Server::StallBeforeHeaders),
         2 => body_k.clone().prop_map(|(b, k)| Server::StallMidBody { body: b, k }),
         1 => Just(Server::Refused),
+        2 => body_k.clone().prop_map(|(b, k)| Server::CloseDelimitedCut { body: b, k }),
     ]
     .boxed()
 }
 
 fn scenario_strategy(ls: u64, lp: u64, table: Arc<KillTable>) -> BoxedStrategy<Scenario> {
     let prior = proptest::sample::select(PRIORS.to_vec());
-    let entry = proptest::sample::select(vec![Entry::Expr, Entry::Fetch]);
+    let entry = proptest::sample::select(vec![Entry::Expr, Entry::Fetch, Entry::Expr, Entry::Fetch, Entry::SandboxedRepl]);
     let plain = (prior, entry.clone(), server_strategy(ls, lp))
-        .prop_map(|(p, e, s)| Scenario { prior: p, server: s, entry: e, kill: Kill::None });
+        .prop_map(|(p, e, s)| Scenario { prior: p, server: s, entry: e, kill: Kill::None, tiny_timeout: false });
     let kc = proptest::sample::select(kill_combos());
     let body = prop_oneof![Just(Body::Small), Just(Body::Padded)];
     let t2 = table.clone();
@@ -1501,14 +1585,16 @@ fn scenario_strategy(ls: u64, lp: u64, table: Arc<KillTable>) -> BoxedStrategy<S
                     server: Server::Complete { body: b },
                     entry: e,
                     kill: Kill::Syscall { name: kp.name.clone(), when: kp.when },
-                }
+            tiny_timeout: false,
+        }
             }
             _ => Scenario {
                 prior: p,
                 server: Server::StallMidBody { body: Body::Padded, k },
                 entry: e,
                 kill: Kill::ServerPaced,
-            },
+            tiny_timeout: false,
+        },
         }
     });
     let paced = (kc, 0u64..lp).prop_map(|((p, e), k)| Scenario {
@@ -1516,7 +1602,8 @@ fn scenario_strategy(ls: u64, lp: u64, table: Arc<KillTable>) -> BoxedStrategy<S
         server: Server::StallMidBody { body: Body::Padded, k },
         entry: e,
         kill: Kill::ServerPaced,
-    });
+            tiny_timeout: false,
+        });
     let _ = have_table;
     prop_oneof![7 => plain, 2 => strace_kill, 1 => paced].boxed()
 }
@@ -1564,6 +1651,44 @@ pub fn run(cx: &Cx) -> Report {
     let (s1, k1) = (su.clone(), known.clone());
     rep.absorb(par_sweep(cx, "grid", items, move || mk_env(s1.clone(), k1.clone()), execute, to_json));
     rep.mark(cx, "grid");
+
+    // phase 1b: three corners outside the grid - a 200 whose body ends with the connection
+    // (nothing on the wire says it is short), the interactive prompt with limits enabled (a second,
+    // sandboxed process refreshes and loads the cache again), a configured timeout below one
+    // millisecond against a server that never answers
+    {
+        let mut items: Vec<Scenario> = vec![];
+        for (i, p) in PRIORS.iter().enumerate() {
+            for e in [Entry::Expr, Entry::Fetch] {
+                for (j, frac) in [0u64, 1, 37, 50, 99].iter().enumerate() {
+                    let (body, len) = if (i + j) % 2 == 0 { (Body::Small, ls) } else { (Body::Padded, lp) };
+                    let k = if *frac == 0 { 1 } else { (len * frac / 100).min(len - 1) };
+                    items.push(Scenario { prior: *p, server: Server::CloseDelimitedCut { body, k }, entry: e, kill: Kill::None, tiny_timeout: false });
+                }
+                items.push(Scenario { prior: *p, server: Server::CloseDelimitedCut { body: Body::Small, k: ls - 1 }, entry: e, kill: Kill::None, tiny_timeout: false });
+            }
+            for sv in [
+                Server::Complete { body: Body::Small },
+                Server::Status { status: 500, body: ErrBody::Text },
+                Server::Status { status: 404, body: ErrBody::NewSmall },
+                Server::CutAfter { body: Body::Small, k: ls / 2, rst: false },
+                Server::CloseDelimitedCut { body: Body::Small, k: ls / 2 },
+                Server::StallBeforeHeaders,
+                Server::Refused,
+            ] {
+                items.push(Scenario { prior: *p, server: sv, entry: Entry::SandboxedRepl, kill: Kill::None, tiny_timeout: false });
+            }
+            for e in [Entry::Expr, Entry::Fetch] {
+                for sv in [Server::StallBeforeHeaders, Server::StallMidBody { body: Body::Small, k: ls / 3 }] {
+                    items.push(Scenario { prior: *p, server: sv, entry: e, kill: Kill::None, tiny_timeout: true });
+                }
+            }
+        }
+        rep.stats.note("scenarios_corners", json!(items.len()));
+        let (s1, k1) = (su.clone(), known.clone());
+        rep.absorb(par_sweep(cx, "corners", items, move || mk_env(s1.clone(), k1.clone()), execute, to_json));
+        rep.mark(cx, "corners");
+    }
 
     // phase 2: kill points
     let mut table = KillTable::new();
